@@ -20,6 +20,7 @@ func init() {
 				{ID: "C16.R2", Title: "ReplaceLastLine keeps the number of lines and replaces the last one", Floor: 1, Run: c16R2},
 				{ID: "C16.R3", Title: "every frame built by view() has s.height lines", Floor: 2, Run: c16R3},
 				{ID: "C16.R4", Title: "the terminal callback only receives view() results", Floor: 10, Run: c16R4},
+				{ID: "C16.R5", Title: "the height the frames are built for is the height the terminal reported last", Floor: 2, Run: c16R5},
 			},
 		}
 	}
@@ -318,3 +319,87 @@ func c16R4(c *Ctx) {
 
 // unwrapLoadKeep: the value itself (loads of fields are what R4 looks for).
 func unwrapLoadKeep(v ssa.Value) ssa.Value { return v }
+
+// c16R5: view() builds frames for s.height; that is the terminal's height only
+// if every reported size is taken over. Every store into State.height stores a
+// parameter of the enclosing function (NewState, SetWidthHeight); in
+// SetWidthHeight every path to a return either stores the reported height and
+// then emits a frame, or knows that the stored height already equals it, or
+// knows the reported height to be below 2 (outside the property's
+// precondition). A guard that ignores some valid heights leaves every later
+// frame laid out for the old one.
+func c16R5(c *Ctx) {
+	P := c.P
+	heightField := P.Field("servitor/ui", "State", "height")
+	outField := P.Field("servitor/ui", "State", "output")
+	n := 0
+	for _, fn := range P.FuncsIn("servitor/ui") {
+		fname := FuncName(fn)
+		eachInstr(fn, func(_ *ssa.BasicBlock, _ int, in ssa.Instruction) {
+			st, ok := in.(*ssa.Store)
+			if !ok {
+				return
+			}
+			fa, ok := st.Addr.(*ssa.FieldAddr)
+			if !ok || fieldOf(fa) != heightField {
+				return
+			}
+			n++
+			_, isParam := unwrapLoad(st.Val).(*ssa.Parameter)
+			c.check(isParam, fname+"/height-store", P.InstrPos(in), fname, "the height stored is the one reported by the caller", "State.height is set to something other than the height the terminal reported")
+		})
+	}
+	c.info("height_stores", n)
+	sw := P.Method("servitor/ui", "State", "SetWidthHeight")
+	name := FuncName(sw)
+	var hp *ssa.Parameter
+	for _, p := range sw.Params {
+		if p.Name() == "height" {
+			hp = p
+		}
+	}
+	if hp == nil && len(sw.Params) == 3 {
+		hp = sw.Params[2]
+	}
+	if hp == nil {
+		c.bad(name+"/signature", P.Pos(sw.Pos()), name, "SetWidthHeight no longer takes (width, height)")
+		return
+	}
+	eachReturnPath(sw, func(ret *ssa.Return, pf0 pathFacts, k int) {
+		pf, feasible := resolvePathFacts(pf0)
+		if !feasible {
+			return
+		}
+		lc := newLcPath(P, sw, pf)
+		lc.useFacts()
+		if lc.infeasible() {
+			return
+		}
+		stored, emitted := false, false
+		for _, b := range pf.blocks {
+			for _, in := range b.Instrs {
+				if st, ok := in.(*ssa.Store); ok {
+					if fa, ok := st.Addr.(*ssa.FieldAddr); ok && fieldOf(fa) == heightField && unwrapLoad(st.Val) == ssa.Value(hp) {
+						stored = true
+					}
+				}
+				if cc := callOf(in); cc != nil && stored {
+					if u, ok := cc.Value.(*ssa.UnOp); ok {
+						if fa, ok := u.X.(*ssa.FieldAddr); ok && fieldOf(fa) == outField {
+							emitted = true
+						}
+					}
+				}
+			}
+		}
+		h := lc.num(hp)
+		cur := newLin()
+		cur.coef["recv.&height.*"] = 1
+		same := lc.proveEq(h.add(cur, -1))
+		tooSmall := lc.nonNeg(linConst(1).add(h, -1)) // height <= 1
+		where := "path through lines " + pathLines(P, pf)
+		c.check((stored && emitted) || same || tooSmall, name+"/takes-over-height", P.InstrPos(ret), name,
+			"the reported height is stored and a frame emitted, or it is unchanged, or below 2 ("+where+")",
+			"a reported height of 2 or more can be ignored (or stored without a new frame) on the "+where+": every later frame is laid out for the old height")
+	})
+}
